@@ -25,15 +25,19 @@ ASSUMPTIONS = ["Python floats modelled as exact reals; every oracle carries a 1e
                "margin test: where the code compares against the obtained instead of the requested frequency (USPMMCM math.isclose, Gowin) the soundness oracle accepts either reference (second-order difference m^2)"]
 BOUNDS = {"quick": "S7PLL/S7MMCM/USMMCM/S6PLL: 2-3 windows x 1 output + 1 window x 2 outputs; iCE40PLL 2 windows; ECP5PLL 2 windows (1-2 outputs); CycloneIV/Max10 1 window each (1-2 outputs); NXPLL 1 window; GW1NPLL 1 window x 1 output",
           "thorough": "more windows (low/high/interior of each range), 2 outputs for every Xilinx family incl. USPMMCM's own search, margins {1e-2,1e-3,0}, ECP5 3 windows, CycloneIV/V/Max10 5 windows, NXPLL 3 windows, GW1NPLL 2 outputs"}
-OUTSIDE = ("the full divider product in one query; Efinix (platform-bound search), Gowin GW2A/GW5A, GateMate (no search: frequencies are handed to the vendor primitive) are not encoded and NOT claimed; "
+OUTSIDE = ("the full divider product in one query; Efinix Titanium (do_finalize performs no search for it), Gowin GW2A/GW5A, GateMate (no search: frequencies are handed to the vendor primitive) are not encoded and NOT claimed; "
            "do_finalize string parameters of Gowin/Intel beyond divider/multiplier equality; Gowin requests with frequency ratios >= 9; float effects beyond the slack (e.g. ECP5 int() of a float quotient one ulp below an integer)")
 FUNCS = ["litex.soc.cores.clock.xilinx_common.XilinxClocking.compute_config", "litex.soc.cores.clock.common.clkdiv_range", "litex.soc.cores.clock.xilinx_s7.S7PLL.do_finalize",
          "litex.soc.cores.clock.xilinx_s7.S7MMCM.do_finalize", "litex.soc.cores.clock.xilinx_s6.S6PLL", "litex.soc.cores.clock.xilinx_us.USMMCM",
          "litex.soc.cores.clock.lattice_ice40.iCE40PLL.compute_config", "litex.soc.cores.clock.lattice_ecp5.ECP5PLL.compute_config",
          "litex.soc.cores.clock.intel_common.IntelClocking.compute_config/do_finalize", "litex.soc.cores.clock.lattice_nx.NXPLL.compute_config", "litex.soc.cores.clock.gowin_gw1n.GW1NPLL.compute_config",
-         "litex.soc.cores.clock.xilinx_usp.USPMMCM.compute_config"]
+         "litex.soc.cores.clock.xilinx_usp.USPMMCM.compute_config", "litex.soc.cores.clock.xilinx_usp.USPPLL.do_finalize", "litex.soc.cores.clock.xilinx_s6.S6DCM.do_finalize",
+         "litex.soc.cores.clock.efinix.EFINIXPLL.compute_config"]
 
 SL = Fraction(1, 10**9)
+
+
+PHASES = [0, 90, 45, 180, 270, 135]      # requested phase of output i (concrete, distinct: a swapped or dropped phase is visible)
 
 
 def rdir():
@@ -108,7 +112,7 @@ def job_xilinx(modname, clsname, ckw, win, nout, margin, tag):
         for i in range(nout):
             f = ctx.real("f%d" % i, Fraction(1e6), Fraction(1000e6))
             fs_.append(f)
-            pll.clkouts[i] = (Signal(), f, 0, ctx.exact(margin))
+            pll.clkouts[i] = (Signal(), f, PHASES[i], ctx.exact(margin))
         pll.nclkouts = nout
         vmin, vmax = pll.vco_freq_range
         vm = pll.vco_margin
@@ -137,26 +141,30 @@ def job_xilinx(modname, clsname, ckw, win, nout, margin, tag):
         n, m = cfg["divclk_divide"], cfg["clkfbout_mult"]
         ds = [cfg["clkout%d_divide" % i] for i in range(nout)]
         inr = (n in ns) and (m in ms) and all(Fraction(d) in dl for d, dl in zip(ds, dlists))
-        res = dict(dividers_inside_ranges=inr, outputs_within_margin_and_vco_in_range=spec(n, m, [Fraction(d) for d in ds], SL))
+        res = dict(dividers_inside_ranges=inr, outputs_within_margin_and_vco_in_range=spec(n, m, [Fraction(d) for d in ds], SL),
+                   phases_equal_request=all(cfg.get("clkout%d_phase" % i) == PHASES[i] for i in range(nout)))
         # emitted primitive parameters = configuration
         try:
             pll.finalize()
             p = pll.params
-            same = (p.get("p_CLKFBOUT_MULT", p.get("p_CLKFBOUT_MULT_F")) == m) and (p.get("p_DIVCLK_DIVIDE") == n)
-            for i in range(nout):
-                key = "p_CLKOUT%d_DIVIDE" % i
-                if key not in p:
-                    key = "p_CLKOUT%d_DIVIDE_F" % i
-                same = same and (p.get(key) == ds[i])
+            if clsname == "S6DCM":       # DCM_CLKGEN: f_out = f_in * CLKFX_MULTIPLY / CLKFX_DIVIDE
+                same = (p.get("p_CLKFX_MULTIPLY") == m) and (p.get("p_CLKFX_DIVIDE") == ds[0] * n)
+            else:
+                same = (p.get("p_CLKFBOUT_MULT", p.get("p_CLKFBOUT_MULT_F")) == m) and (p.get("p_DIVCLK_DIVIDE") == n)
+                for i in range(nout):
+                    key = "p_CLKOUT%d_DIVIDE" % i
+                    if key not in p:
+                        key = "p_CLKOUT%d_DIVIDE_F" % i
+                    same = same and (p.get(key) == ds[i]) and (p.get("p_CLKOUT%d_PHASE" % i) == PHASES[i])
             res["instance_parameters_equal_config"] = same
         except Exception as e:
             if isinstance(e, (pysym.Unsupported,)):
                 raise
             res["instance_parameters_equal_config"] = False
         return res
-    checks = ["dividers_inside_ranges", "outputs_within_margin_and_vco_in_range", "instance_parameters_equal_config", "refused_only_if_no_setting_in_window"]
+    checks = ["dividers_inside_ranges", "outputs_within_margin_and_vco_in_range", "phases_equal_request", "instance_parameters_equal_config", "refused_only_if_no_setting_in_window"]
     return run_pysym("%s_%s" % (clsname.lower(), tag), body, checks, required_events=["configured", "refused"], funcs=FUNCS,
-                     cfg=dict(cls=clsname, ctor=ckw, window=win, outputs=nout, margin=margin), replay_dir=rdir(), max_paths=300000)
+                     cfg=dict(cls=clsname, ctor=ckw, window=win, outputs=nout, margin=margin, phases=PHASES[:nout]), replay_dir=rdir(), max_paths=300000)
 
 
 def job_uspmmcm(ckw, win, nout, margin, tag):
@@ -209,7 +217,7 @@ def job_uspmmcm(ckw, win, nout, margin, tag):
         for i in range(nout):
             f = ctx.real("f%d" % i, Fraction(1e6), Fraction(1000e6))
             fs_.append(f)
-            pll.clkouts[i] = (Signal(), f, 0, ctx.exact(margin))
+            pll.clkouts[i] = (Signal(), f, PHASES[i], ctx.exact(margin))
         pll.nclkouts = nout
         vmin, vmax = pll.vco_freq_range
         vm = pll.vco_margin
@@ -355,6 +363,10 @@ def jobs(tier):
         ("xilinx_s7", "S7MMCM", dict(speedgrade=-1), dict(divclk=(2, 2), mult=(2, 3), div=(1, 3), div0=(2, 2, Fraction(1, 8))), 2, 0, "gcd_2out_margin0"),
         ("xilinx_us", "USMMCM", dict(speedgrade=-1), dict(divclk=(1, 2), mult=(2, 2), div=(1, 2), div0=(1, 2, Fraction(1, 8))), 1, 1e-3, "low_1out"),
         ("xilinx_s6", "S6PLL", dict(speedgrade=-1), dict(divclk=(1, 2), mult=(2, 3), div=(1, 3)), 1, 1e-2, "low_1out"),
+        ("xilinx_s6", "S6DCM", dict(speedgrade=-1), dict(divclk=(1, 1), mult=(2, 3), div=(1, 3)), 1, 1e-2, "low_1out"),
+        ("xilinx_s6", "S6DCM", dict(speedgrade=-3), dict(divclk=(1, 1), mult=(254, 3), div=(254, 3)), 1, 1e-3, "high_1out"),
+        ("xilinx_usp", "USPPLL", dict(speedgrade=-1), dict(divclk=(1, 2), mult=(2, 3), div=(1, 3)), 1, 1e-2, "low_1out"),
+        ("xilinx_usp", "USPPLL", dict(speedgrade=-2), dict(divclk=(2, 2), mult=(20, 2), div=(6, 3)), 2, 1e-2, "mid_2out"),
     ]
     if T:
         X += [
@@ -379,6 +391,8 @@ def jobs(tier):
         js.append(Job("ice40pll_mid", job_ice40, dict(win=dict(divr=(2, 3), divf=(40, 3), divq=(2, 4)), margin=1e-3, tag="mid"), cost=5))
     from vf.props import c20_intel
     js += c20_intel.jobs(tier)
+    from vf.props import c20_efinix
+    js += c20_efinix.jobs(tier)
     return js
 
 
